@@ -115,11 +115,12 @@ def build_probes(rng, p, res, oracle, per_key=3, flavours=("string", "display", 
                     if not ok:
                         continue
 
-                    def env_for(flavour, eff=eff):
+                    def env_for(flavour, l=l):
                         from fractions import Fraction
                         cat_tbl = {}
+                        # the plural category is that of the locale being rendered (also when the text is inherited)
                         for (ll, rule, key), f in cats.items():
-                            if ll == eff:
+                            if ll == l:
                                 cat_tbl[(rule, Fraction(key[2:]))] = f
                         return Env(vars=var_vals, var_default=("?", ""), var_fmt=False, comp=('<span data-c="', '">', "</span>", ""), close_tag=False,
                                    tags=comp_tags, counts={k: count_value(v) for k, v in count_of.items()}, count_default=0, cats=cat_tbl)
